@@ -14,6 +14,12 @@ CHECKS["C04"] = dict(engine="expr", cat="exploration", tech=EXPR_TECH,
 CHECKS["C05"] = dict(engine="expr", cat="exploration", tech=EXPR_TECH,
   text="For every node of every result produced by construction, rewriting, folding, annotation changes, substitution, Z3 abstraction/simplify, canonicalisation and ITE relocation, TLC recomputes width, free variables, depth and (for concrete nodes) the value from the serialised tree with Term.tla and compares with the attributes claripy reports (length, variables superset, symbolic flag, depth, concrete_value).",
   note="Metadata is compared with a recomputation over the tree claripy holds; streams as C01 plus a seeded stream of annotate/replace/simplify/canonicalize operations at widths 1..64.", ref="5 C05")
+CHECKS["C02"] = dict(engine="fp", cat="exploration", tech="TLA+ IEEE-754 reference semantics (FP.tla, arbitrary (eb,sb) on bit sequences) evaluated by TLC on recorded fold/solve events (TraceFP.tla)",
+  text="Every FP operator and conversion is applied to all pairs of a pool of about 45 values per format (signed zeros, subnormals, infinities, NaN, ties, 2^24+1, 2^53+1, 2^63, ...) in all five rounding modes, once folded through the public constructors and once solved through a claripy solver with the operands pinned; TLC evaluates FP.tla on the operand bit patterns and compares bit-for-bit (NaN as a class, SMT-LIB-unspecified results accept anything). Z3's FPA theory is the second opinion before any alarm, and FP.tla itself is self-tested against Z3.",
+  note="Bounded by the operand pools and one level of depth-2 composition; known defects of the pinned tree are exact failing-input sets (findings/C02-exact*.txt).", ref="5 C02")
+CHECKS["C03"] = dict(engine="str", cat="exploration", tech="TLA+ SMT-LIB string semantics (Str.tla on code-point sequences, 64-bit wrap-around through BVBits) evaluated by TLC on recorded fold/solve/literal events (TraceStr.tla)",
+  text="Every string operator on all tuples of a pool of strings (NUL, backslashes, regex metacharacters, newline, escape look-alikes, BMP and astral code points, numerals with sign/space/20+ digits) and boundary indices (0,1,|s|-1,|s|,|s|+1,2^63,2^64-1): folded result, solved result and the code points Z3 actually holds for each constant are compared by TLC with Str.tla.",
+  note="Bounded by the pools; solver side through SolverStrings/Z3; known defects are exact failing-input sets (findings/C03-exact*.txt).", ref="5 C03")
 SOLVER_TECH = "TLA+ abstract solver algebra (SolverAbs.tla) + trace validation by TLC (TraceSolver.tla) of recorded histories on the real frontends"
 SOLVER_NOTE = "Trusted: TLC, Term.tla semantics, Z3 inside claripy only as the system under test. Variables of width <= 3 so TLC enumerates every model; histories are seeded-random (length <= 10 + probe battery) over fixed constraint alphabets, REUSE_Z3_SOLVER on and off."
 def solver(pid, text, cat="model_checking", ref=None):
@@ -55,6 +61,8 @@ def main():
                   "source_commits": [], "add_only": True},
         "engines": [
             {"name": "expr", "path": "harness/eng_expr.py", "serves_properties": ["C01", "C04", "C05"], "kind_free_text": "construction events -> TLC (TraceExpr.tla) constant-level trace validation against Term.tla"},
+            {"name": "fp", "path": "harness/eng_fp.py", "serves_properties": ["C02"], "kind_free_text": "fold/solve events -> TLC (TraceFP.tla) against FP.tla"},
+            {"name": "str", "path": "harness/eng_str.py", "serves_properties": ["C03"], "kind_free_text": "fold/solve/literal events -> TLC (TraceStr.tla) against Str.tla"},
             {"name": "gc", "path": "harness/eng_gc.py", "serves_properties": ["C19"], "kind_free_text": "TLC state graph of GcGuard.tla -> path cover replayed by harness/sched.py on the real code -> TraceGc.tla"},
             {"name": "solver", "path": "harness/eng_solver.py", "serves_properties": ["C11", "C12", "C13", "C14", "C15", "C16", "C17", "C18"], "kind_free_text": "solver histories on real frontends -> TLC (TraceSolver.tla) trace validation against SolverAbs.tla"},
         ],
